@@ -215,6 +215,84 @@ impl G {
     }
 }
 
+pub const K1: &str = "7Z8ftDAzMvoyXnGEJye8DurzgFQXLAbYCaeeesM7UKHa";
+const K2: &str = "6Ms3tPHAuvFqYufCfVVaAXK2TLjySPetqTdRuqLcRnu";
+const K3: &str = "4BhCcWo3QnGLHySMRAy39K6UweJXhZPF167XF2k11XsP";
+/// malformed raw keys: blank, short, 31 and 33 bytes, characters outside the base58 alphabet
+const BAD_RAW: &[&str] = &["", "abc", "hBxVhPQ8E4i2LegsKLvezqUWNt1atk4gw3hJohmLKh", "EVwhSFrbzB2KzFju8YuvybBRZTFJsGkRtjDn77fyvPxqe",
+    "6Ms3tPHAuvFqYufCfVVaAXK2TLjySPetqTdRuqLcRn0", "l0OI", "7Z8ftDAzMvoyXnGEJye8DurzgFQXLAbYCaeeesM7UKHa "];
+
+/// (method, pass, expected to succeed) of one re-key attempt
+fn rekey_variant(r: &mut Rng, slow_ok: bool) -> (Value, Value, bool) {
+    match r.below(if slow_ok { 14 } else { 13 }) {
+        0 | 1 => (json!("raw"), json!(*r.pick(&[K2, K3, K1])), true),
+        2 => (json!("kdf:argon2i:int"), json!(*r.pick(&["pw", "", "pässwörd \u{1F600}"])), true),
+        3 => (json!("none"), if r.chance(1, 2) { Value::Null } else { json!("ignored") }, true),
+        4 | 5 => (json!("raw"), json!(*r.pick(BAD_RAW)), false),
+        6 => (json!("raw"), Value::Null, false),                       // blank raw key
+        7 => (json!(*r.pick(&["bogus", "", "RAW", "kdf:bogus", "kdf:argon2i:fast", "rawkey", "kdf"])), json!(K2), false),
+        8 => (json!("kdf:argon2i:int"), Value::Null, false),           // no password
+        9 if slow_ok => (json!({"bad": "ff"}), json!(K2), true),        // method not UTF-8: read as absent = default kdf (D23), slow
+        9 => (json!("raw"), json!(K2), true),
+        10 => (json!("raw:extra"), json!(K3), true),
+        11 => (json!("raw"), json!(K2), true),
+        12 => (json!("none:x"), Value::Null, true),
+        _ => (Value::Null, json!("pw-default-method"), true),         // default method (argon2i moderate): slow
+    }
+}
+
+fn method_class(m: &Value) -> String {
+    match m.as_str() { None => "kdf:mod".into(), Some(s) => { let pre = s.split(':').next().unwrap_or(""); if pre == "raw" { "raw".into() } else if pre == "none" { "none".into() } else if s == "kdf:argon2i:int" { "kdf:int".into() } else { "kdf:mod".into() } } }
+}
+
+/// re-key focused case on a database file: every attempt is followed by continued use of the SAME handle
+fn gen_rekey_case(r: &mut Rng, id: u64) -> Value {
+    let mut ops = vec![
+        json!({"op": "provision", "uri": "FILE", "method": "raw", "pass": K1, "profile": "default", "cb": true}),
+        json!({"op": "session_start", "h": {"slot": 0}, "profile": null, "txn": false, "cb": true}),
+        json!({"op": "update", "h": {"slot": 1}, "operation": 0, "c": "c1", "n": "r0", "v": "00ff", "tt": "{\"a\":\"1\"}", "ts": [[0, "a", "1"]], "e": -1, "cb": true, "key_escaped": false}),
+    ];
+    let (mut cur_m, mut cur_p) = (json!("raw"), json!(K1));
+    let mut open_sess = vec![1usize];
+    let n = 2 + r.below(3);
+    for k in 0..n {
+        if r.chance(1, 3) && !open_sess.is_empty() {
+            // close the sessions first now and then (re-key with and without open sessions)
+            for s in open_sess.drain(..) { ops.push(json!({"op": "session_close", "h": {"slot": s}, "commit": false, "cb": true})); }
+        }
+        let (m, p, ok) = if k == n - 1 && r.chance(1, 2) { (json!("raw"), json!(K3), true) } else { let slow = r.chance(1, 6); rekey_variant(r, slow) };
+        // a non-UTF-8 method is read as absent (D23): default kdf with the given password — slow but valid
+        ops.push(json!({"op": "rekey", "h": {"slot": 0}, "method": m, "pass": p, "cb": !r.chance(1, 30)}));
+        let cb_ok = ops.last().unwrap()["cb"].as_bool().unwrap();
+        let succeeded = ok && cb_ok;
+        let (old_m, old_p) = (cur_m.clone(), cur_p.clone());
+        if succeeded { cur_m = if m.is_string() { m.clone() } else { Value::Null }; cur_p = p.clone(); }
+        // continued use of the same store handle
+        let s = ops.len();
+        ops.push(json!({"op": "session_start", "h": {"slot": 0}, "profile": null, "txn": r.chance(1, 4), "cb": true}));
+        ops.push(json!({"op": "update", "h": {"slot": s}, "operation": 0, "c": "c1", "n": format!("k{}", k), "v": value(r), "tt": null, "ts": null, "e": -1, "cb": true, "key_escaped": false}));
+        ops.push(json!({"op": "fetch", "h": {"slot": s}, "c": "c1", "n": "r0", "for_update": false, "cb": true}));
+        ops.push(json!({"op": "session_close", "h": {"slot": s}, "commit": true, "cb": true}));
+        if let Some(&os) = open_sess.first() { ops.push(json!({"op": "fetch", "h": {"slot": os}, "c": "c1", "n": "r0", "for_update": false, "cb": true})); }
+        if r.chance(1, 3) { ops.push(json!({"op": "current_error"})); }
+        if r.chance(1, 4) { ops.push(json!({"op": "get_profile_name", "h": {"slot": 0}, "cb": true})); }
+        // the file opens with the current key, not with the one it replaced
+        let open_m = |m: &Value| if m.is_null() { json!("kdf:argon2i:mod") } else if r_is_bad(m) { json!("kdf:argon2i:mod") } else { m.clone() };
+        if method_class(&cur_m) != "kdf:mod" || succeeded {
+            if method_class(&cur_m) != "kdf:mod" { ops.push(json!({"op": "store_open", "of": 0, "uri": "x", "method": open_m(&cur_m), "pass": cur_p, "cb": true})); }
+            if succeeded && method_class(&old_m) != "kdf:mod" { ops.push(json!({"op": "store_open", "of": 0, "uri": "x", "method": open_m(&old_m), "pass": old_p, "cb": true})); }
+        }
+        if r.chance(1, 5) { ops.push(json!({"op": "store_open", "of": 0, "uri": *r.pick(&[Value::Null, json!("x")]), "method": *r.pick(&[json!("bogus"), Value::Null, json!("raw")]), "pass": *r.pick(&[json!(K1), Value::Null, json!("abc")]), "cb": !r.chance(1, 4)})); }
+    }
+    if r.chance(1, 2) { ops.push(json!({"op": "rekey", "h": {"raw": *r.pick(&["zero", "max", "unissued"])}, "method": "raw", "pass": K2, "cb": true})); }
+    ops.push(json!({"op": "store_close", "h": {"slot": 0}, "cb": true}));
+    ops.push(json!({"op": "rekey", "h": {"slot": 0}, "method": "raw", "pass": K2, "cb": true}));   // closed handle
+    if method_class(&cur_m) != "kdf:mod" { ops.push(json!({"op": "store_open", "of": 0, "uri": "x", "method": Value::Null, "pass": cur_p, "cb": true})); }
+    json!({"id": id, "kind": "c19", "ops": ops})
+}
+
+fn r_is_bad(m: &Value) -> bool { m.get("bad").is_some() }
+
 fn cstr_or_null(r: &mut Rng, xs: &[&str], null_rate: u32) -> Value { if r.chance(null_rate, 100) { Value::Null } else { json!(*r.pick(xs)) } }
 
 fn gen_case(r: &mut Rng, id: u64, thorough: bool) -> Value {
@@ -241,6 +319,52 @@ fn gen_case(r: &mut Rng, id: u64, thorough: bool) -> Value {
         }
     }
     for _ in 0..len {
+        if r.chance(13, 100) {
+            // the less common entry points
+            match r.below(18) {
+                12..=17 => {
+                    // stored keys
+                    if g.keys.is_empty() || r.chance(1, 6) { let slot = g.push(json!({"op": "key_generate", "alg": *r.pick(ALGS), "null_out": false})); g.keys.push(slot); }
+                    let kn = json!(*r.pick(&["k1", "k2", "", "clé \u{1F511}"]));
+                    let sub = r.below(10);
+                    let write = sub < 6;
+                    let Some((h, _)) = g.sess_handle(r, write, bad) else { continue };
+                    let md = cstr_or_null(r, &["meta", "", "{\"a\":1}", "ü"], 40);
+                    match sub {
+                        0..=2 => { let (tt, ts, esc) = tags_arg(r, 10); let key = if r.chance(1, 12) { json!(1000000) } else { json!(*r.pick(&g.keys)) };
+                                   g.push(json!({"op": "key_insert", "h": h, "key": key, "n": if r.chance(1, 20) { Value::Null } else { kn }, "md": md, "tt": tt, "ts": ts, "key_escaped": esc, "cb": G::cb(r)})); }
+                        3 | 4 => { let (tt, ts, esc) = tags_arg(r, 10); g.push(json!({"op": "key_update", "h": h, "n": kn, "md": md, "tt": tt, "ts": ts, "key_escaped": esc, "cb": G::cb(r)})); }
+                        5 => { g.push(json!({"op": "key_remove", "h": h, "n": kn, "cb": G::cb(r)})); }
+                        6..=8 => { g.push(json!({"op": "key_fetch", "h": h, "n": if r.chance(1, 20) { Value::Null } else { kn }, "cb": G::cb(r)})); }
+                        _ => { g.push(json!({"op": "key_fetch_all", "h": h, "alg": cstr_or_null(r, ALGS, 50), "lim": *r.pick(&[-1i64, -1, -1, 0, 1, 5]), "cb": G::cb(r)})); }
+                    }
+                }
+                0 | 1 => if let Some(i) = g.usable_store(r, true) {
+                    if g.stores[i].nsess == 0 || r.chance(1, 2) {
+                        let (m, p, _) = rekey_variant(r, false);
+                        let h = if r.chance(bad, 100) { let closed: Vec<usize> = g.stores.iter().filter(|s| !s.open).map(|s| s.slot).collect(); g.bad_handle(r, closed) } else { G::href(g.stores[i].slot) };
+                        g.push(json!({"op": "rekey", "h": h, "method": m, "pass": p, "cb": G::cb(r)}));
+                    }
+                },
+                2 => if let Some(i) = g.usable_store(r, true) { g.push(json!({"op": "remove_profile", "h": G::href(g.stores[i].slot), "name": cstr_or_null(r, &["p2", "p3", "ü", "nosuch2"], 8), "cb": G::cb(r)})); },
+                3 => if let Some(i) = g.usable_store(r, true) { g.push(json!({"op": "set_default_profile", "h": G::href(g.stores[i].slot), "name": cstr_or_null(r, &["p2", "default", "ü", "nosuch2", ""], 8), "cb": G::cb(r)})); },
+                4 => {
+                    let closed: Vec<usize> = g.stores.iter().filter(|s| !s.open).map(|s| s.slot).collect();
+                    let h = match g.usable_store(r, false) { Some(i) if !r.chance(bad, 100) => G::href(g.stores[i].slot), _ => g.bad_handle(r, closed) };
+                    g.push(json!({"op": "get_default_profile", "h": h, "cb": G::cb(r)}));
+                }
+                5 => { g.push(json!({"op": "version"})); }
+                6 | 7 => { g.push(json!({"op": "current_error"})); }
+                8 => { g.push(json!({"op": "set_max_log_level", "level": *r.pick(&[-1i64, 0, 1, 5, 6, -2, 2147483647, -2147483648])})); }
+                9 => {
+                    let h = if g.strlists.is_empty() || r.chance(1, 3) { json!({"raw": "null"}) } else { G::href(*r.pick(&g.strlists)) };
+                    g.push(json!({"op": "strlist_count", "h": h, "null_out": r.chance(1, 5)}));
+                }
+                10 => { g.push(json!({"op": "key_roundtrip", "alg": *r.pick(&["ed25519", "x25519", "p256", "k256", "a128gcm", "c20p", "bls12381g1", "bogus"]), "seed": hex::encode(r.bytes(32))})); }
+                _ => if r.chance(1, 3) { g.push(json!({"op": "null_probe"})); },
+            }
+            continue;
+        }
         let k = r.below(100);
         match k {
             0..=2 => if g.stores.iter().filter(|s| s.open).count() < 3 { g.provision(r) },
@@ -449,6 +573,7 @@ pub fn gen(r: &mut Rng, thorough: bool, count: Option<usize>) -> Vec<Value> {
         let mut rr = r.fork();
         if i % 75 == 74 { out.push(gen_bad_utf8(&mut rr, i as u64)); }
         else if i == 7 { out.push(json!({"id": i, "kind": "c19", "ops": [{"op": "raw_key_null_out"}]})); }
+        else if i % 8 == 3 { out.push(gen_rekey_case(&mut rr, i as u64)); }
         else { out.push(gen_case(&mut rr, i as u64, thorough)); }
     }
     out
